@@ -1,5 +1,6 @@
 """C07 -- metadata and namespace operations behave like a sequential model."""
 import os
+import random
 from ..core import Check, Violation
 from ..runner import Case
 from ..metaprog import MetaProg, random_name, compare_sweep, compare_header, nfc
@@ -16,6 +17,7 @@ def gen_case(rng, i, nprocs, safe):
             hints.append("%s:%d" % (k, rng.choice([1, 1, 2, 3, 7])))
     p = MetaProg(rng, nprocs, "@OUT@/c07.nc", version, hints=";".join(hints) or None)
     p.create()
+    prng = random.Random(7919 * i + 13)
     pool = [random_name(rng) for _ in range(10)]          # small pool: name reuse, collisions, re-definition after delete
     tps = types_for(version)
     nops = rng.randint(25, 50)
@@ -63,6 +65,20 @@ def gen_case(rng, i, nprocs, safe):
         else:
             if not p.defmode:
                 p.snapshot()
+        if not p.defmode and prng.random() < 0.3:
+            # aimed: a data-mode overwrite with NO MORE elements than before but a wider type, so that only the
+            # padded size grows -- must be refused (NC_ENOTINDEFINE) and change nothing.  Drawn from a private
+            # generator (and leaving the model unchanged), so the main random stream and all other operations stay as they were.
+            cands = [(vid, a) for vid in vids for a in p.attlist(vid) if a.nelems >= 1]
+            if cands:
+                vid, a = prng.choice(cands)
+                oldpad = cs.pad4(a.nelems * cs.XSZ[a.xtype])
+                opts = [(t, n) for t in tps if t != cs.NC_CHAR for n in range(1, a.nelems + 1) if cs.pad4(n * cs.XSZ[t]) > oldpad]
+                if opts:
+                    t, n = prng.choice(opts)
+                    save, p.rng = p.rng, prng
+                    p.put_att(vid, a.name, t, n)
+                    p.rng = save
         if rng.random() < 0.5 or k == nops - 1:
             p.sweep()
     if p.defmode:
